@@ -37,7 +37,8 @@ From Coq Require Import ZArith List Bool.
 Import ListNotations.
 
 Inductive sst := Idle | Configured | Open | Streaming | Closing | Aborting.
-Inductive sop := OpConfigure | OpOpen | OpStart | OpSuspend | OpClose | OpAbort.
+Inductive sop := OpConfigure | OpOpen | OpStart | OpSuspend | OpClose | OpAbort
+                 | OpGetConfiguration | OpReconfigure | OpDelayReport.
 Inductive sres := Ok | Refused | Rejected.
 
 Definition sst_eqb (a b : sst) : bool :=
@@ -156,6 +157,18 @@ Definition step (p : pair) (o : sop) : pair * sres :=
         let p1 := snk_abort p in
         let p2 := src_release_rtp (set_src p1 Aborting (src_rtp p1)) in
         (set_src p2 Idle (src_rtp p2), Ok)
+  (* bare signalling commands (Protocol.get_configuration / send_command): no local guard, the
+     acceptor answers or rejects, nobody changes state *)
+  | OpGetConfiguration =>
+      (* on_get_configuration_command: no stream -> BAD_STATE; not CONFIGURED/OPEN/STREAMING -> reject *)
+      if snk_has p && (sst_eqb (snk_st p) Configured || sst_eqb (snk_st p) Open || sst_eqb (snk_st p) Streaming)
+      then (p, Ok) else (p, Rejected)
+  | OpReconfigure =>
+      (* on_reconfigure_command: no stream or not OPEN -> reject *)
+      if snk_has p && sst_eqb (snk_st p) Open then (p, Ok) else (p, Rejected)
+  | OpDelayReport =>
+      (* on_delayreport_command: handed to the endpoint whatever the stream state *)
+      (p, Ok)
   end.
 
 Fixpoint run (p : pair) (ops : list sop) : pair * list sres :=
@@ -177,7 +190,18 @@ Definition legal (o : sop) (st : sst) : bool :=
   | OpClose, Open | OpClose, Streaming => true
   | OpAbort, Idle => false
   | OpAbort, _ => true
+  | OpGetConfiguration, Configured | OpGetConfiguration, Open | OpGetConfiguration, Streaming => true
+  | OpReconfigure, Open => true
+  | OpDelayReport, _ => true
   | _, _ => false
+  end.
+
+(* how an illegal procedure is turned down: Stream procedures refuse locally (InvalidStateError),
+   bare commands are rejected by the acceptor (ProtocolError) *)
+Definition refusal (o : sop) : sres :=
+  match o with
+  | OpGetConfiguration | OpReconfigure | OpDelayReport => Rejected
+  | _ => Refused
   end.
 
 Definition spec_next (o : sop) (st : sst) : sst :=
@@ -189,6 +213,7 @@ Definition spec_next (o : sop) (st : sst) : sst :=
     | OpSuspend => Open
     | OpClose => Idle
     | OpAbort => Idle
+    | OpGetConfiguration | OpReconfigure | OpDelayReport => st
     end
   else st.
 
@@ -199,7 +224,8 @@ Definition agree (p : pair) : bool :=
   && Bool.eqb (src_rtp p) (sst_eqb (src_st p) Open || sst_eqb (src_st p) Streaming).
 
 Definition all_sst : list sst := [Idle; Configured; Open; Streaming; Closing; Aborting].
-Definition all_ops : list sop := [OpConfigure; OpOpen; OpStart; OpSuspend; OpClose; OpAbort].
+Definition all_ops : list sop := [OpConfigure; OpOpen; OpStart; OpSuspend; OpClose; OpAbort;
+                                  OpGetConfiguration; OpReconfigure; OpDelayReport].
 Definition all_bool : list bool := [false; true].
 
 Definition all_pairs : list pair :=
